@@ -384,15 +384,27 @@ where
                     }
                 }
                 b'\xef' if matches!(self.utf8, Utf8Bom::Unknown) => {
+                    // A BOM can only be the first three bytes of the stream
+                    if ptr != self.buf.start || self.buf.position() != 0 {
+                        self.utf8 = Utf8Bom::NotPresent;
+                        continue;
+                    }
+
                     match self.buf.window().get(..3) {
                         Some([0xef, 0xbb, 0xbf]) => {
                             self.utf8 = Utf8Bom::Present;
                             ptr = ptr.add(3);
                         }
                         Some(_) => self.utf8 = Utf8Bom::NotPresent,
-                        None => {
-                            return self.next_opt_refill(ParseState::None, self.buf.window_len(), 0)
-                        }
+                        None => match self.buf.fill_buf(&mut self.reader) {
+                            // fewer than three bytes in the whole input: not a BOM
+                            Ok(0) => {
+                                self.utf8 = Utf8Bom::NotPresent;
+                                return self.next_opt_fallback();
+                            }
+                            Ok(_) => return self.next_opt_fallback(),
+                            Err(e) => return (None, Some(self.buffer_error(e))),
+                        },
                     }
                 }
                 _ => {
